@@ -468,6 +468,108 @@ fn req_failed_send(ctx: &mut Ctx) {
     }
 }
 
+
+/// REP under back-pressure: the requester pipelines two requests and does not read; the reply to
+/// the first one does not fit, the send is abandoned after k polls (a timeout, a lost select!
+/// branch); the requester resumes; the application tries to send again, then serves the second
+/// request. Whatever the abandoned send did, the requester must see at most ONE reply to its first
+/// request, then the reply to the second, each whole and behind the delimiter.
+fn rep_abandoned_send(ctx: &mut Ctx) {
+    world::swarm(ctx, SwarmOpts { small_caps: false, ..Default::default() });
+    let k = 1 + ctx.plan(3) as u32;
+    let big_len = ctx.plan_pick(&[3_000usize, 20_000, 70_000, 200_000]);
+    let cap = ctx.plan_pick(&[256usize, 1_000, 9_000]);
+    let viol: Viol = Rc::new(RefCell::new(Vec::new()));
+    let done = Rc::new(RefCell::new(false));
+    let (vl, dn) = (viol.clone(), done.clone());
+    rt::task::spawn_local("app", async move {
+        let mut rep = RepSocket::new();
+        let ep = rep.bind("tcp://127.0.0.1:0").await.expect("bind").to_string();
+        let mut a = RawPeer::connect(&ep).expect("connect");
+        let _ = a.hello("DEALER", None).await;
+        rt::task::idle().await;
+        for s in 0..2u32 {
+            let mut q = vec![vec![]];
+            q.extend(tagged(1, s, &[3]));
+            let _ = a.send_msg(&q).await;
+        }
+        match rep.recv().await {
+            Ok(m) if tag_of(&from_zmq(&m)) == Some((1, 0)) => {}
+            _ => {
+                vl.borrow_mut().push(("request_out_of_order", "the first request was not delivered first".into()));
+                return world::park().await;
+            }
+        }
+        // the requester stops reading: only `cap` more bytes are accepted
+        let already = a.conn.tap_len_from(1);
+        a.conn.set_auto_drain(1, false);
+        a.conn.set_cap(1, cap);
+        let _ = already;
+        let big = tagged(7, 0, &[big_len]);
+        let first = rt::future::or_idle(rt::future::poll_budget(rep.send(to_zmq(&big)), k)).await.flatten();
+        let abandoned = first.is_none();
+        if abandoned {
+            rt::count("probe_reply_send_abandoned_under_back_pressure");
+        }
+        // the requester reads again
+        a.conn.set_cap(1, 1 << 40);
+        a.conn.set_auto_drain(1, true);
+        rt::task::idle().await;
+        let retry = tagged(8, 0, &[5]);
+        let retried = rep.send(to_zmq(&retry)).await;
+        if !abandoned && retried.is_ok() {
+            vl.borrow_mut().push(("reply_accepted_without_request", "REP: the reply was sent completely, and a second send before the next recv was accepted".into()));
+            return world::park().await;
+        }
+        match rt::future::or_idle(rep.recv()).await {
+            Some(Ok(m)) if tag_of(&from_zmq(&m)) == Some((1, 1)) => {}
+            other => {
+                vl.borrow_mut().push(("request_out_of_order", format!("the second request was not delivered after the abandoned send: {:?}", other.map(|r| r.map(|m| show_msg(&from_zmq(&m))).map_err(|e| e.to_string())))));
+                return world::park().await;
+            }
+        }
+        let reply2 = tagged(9, 0, &[5]);
+        if let Err(e) = rep.send(to_zmq(&reply2)).await {
+            vl.borrow_mut().push(("legal_reply_refused", format!("the reply to the second request was refused: {e}")));
+            return world::park().await;
+        }
+        rt::task::idle().await;
+        let p = a.inbound();
+        if let Some((at, e)) = &p.error {
+            vl.borrow_mut().push(("reply_stream_malformed", format!("the requester's inbound stream is malformed at byte {at}: {e}")));
+            return world::park().await;
+        }
+        let got = p.messages();
+        let w = |m: &Vec<Vec<u8>>| -> Vec<Vec<u8>> {
+            let mut v = vec![vec![]];
+            v.extend(m.iter().cloned());
+            v
+        };
+        let n = got.len();
+        let last_ok = n >= 1 && got[n - 1] == w(&reply2);
+        let before: Vec<&Vec<Vec<u8>>> = got[..n.saturating_sub(1)].iter().collect();
+        let ok_before = match before.len() {
+            0 => true,
+            1 => *before[0] == w(&big) || *before[0] == w(&retry),
+            _ => false,
+        };
+        if !last_ok || !ok_before {
+            let clause = if before.len() >= 2 { "two_replies_for_one_request" } else { "reply_stream_wrong_after_abandoned_send" };
+            vl.borrow_mut().push((clause, format!("REP: send of a {big_len}-byte reply abandoned after {k} poll(s) under back-pressure (it had {}completed), retried send {}: the requester received {:?}; expected at most one reply to its first request, then the reply to the second", if abandoned { "not " } else { "" }, if retried.is_ok() { "accepted" } else { "refused" }, got.iter().map(|m| show_msg(m)).collect::<Vec<_>>())));
+        }
+        *dn.borrow_mut() = true;
+        world::park().await;
+        drop(rep);
+        drop(a);
+    });
+    let end = ctx.sim.run(400_000);
+    finish(ctx, end, &viol, *done.borrow(), "REP with an abandoned send");
+    ctx.nontrivial();
+    if ctx.want_sample {
+        ctx.out.sample = Some(format!("REP: reply of {big_len} bytes, requester accepts {cap} bytes, send abandoned after {k} polls"));
+    }
+}
+
 /// 1..4 concurrent clients (scripted and real REQ sockets) against one REP echo server
 fn concurrent(ctx: &mut Ctx) {
     world::swarm(ctx, SwarmOpts::default());
@@ -587,6 +689,7 @@ pub fn def() -> PropDef {
             Stratum { name: "req_sequences", quick: 126 * 60, thorough: (126 * 2000) * 4, exhaustive: (true, true), run: req_sequences, what: "all 126 call sequences <= 6 on REQ (first 126 cases undisturbed), then under random transport" },
             Stratum { name: "rep_sequences", quick: 126 * 60, thorough: (126 * 2000) * 4, exhaustive: (true, true), run: rep_sequences, what: "all 126 call sequences <= 6 on REP with two pipelining partners" },
             Stratum { name: "req_failed_send", quick: 30_000, thorough: 1_500_000, exhaustive: (false, false), run: req_failed_send, what: "REQ with 2..3 partners, one dies: a failed send leaves the socket ready to send to the others" },
+            Stratum { name: "rep_abandoned_send", quick: 30_000, thorough: 1_500_000, exhaustive: (false, false), run: rep_abandoned_send, what: "REP: a reply send is abandoned under back-pressure, then retried: at most one reply per request reaches the requester, in order" },
             Stratum { name: "concurrent", quick: 100_000, thorough: (1_500_000) * 4, exhaustive: (false, false), run: concurrent, what: "1..4 concurrent clients against one REP" },
         ],
     }
